@@ -202,6 +202,7 @@ func init() {
 								email = ui.Email
 							}
 							obs["status"] = r.Status
+							obs["class"] = w.classify(r)
 							// net effect on the browser (cookies apply in order: a renewed cookie followed by a clear leaves nothing)
 							netSet := w.sessionCookieEffect(r) == "set" && jar.get(w.name) != nil && jar.get(w.name).Value != ""
 							if obs["served"] == true {
@@ -216,6 +217,7 @@ func init() {
 						case "signout":
 							r := w.get(jar, w.prefix()+"/sign_out")
 							obs["status"] = r.Status
+							obs["redirected"] = r.Status >= 300 && r.Status < 400
 							after := w.do(vpReq{Target: "/private", Cookie: jar.header()})
 							obs["stillSignedIn"] = after.UpHits > 0
 							cursid[b] = 0
@@ -259,6 +261,7 @@ func init() {
 							r := w.do(vpReq{Target: "/private", Header: [][2]string{{"Authorization", cred}}})
 							obs["served"] = r.UpHits > 0
 							obs["status"] = r.Status
+							obs["class"] = w.classify(r)
 							if r.UpLast != nil {
 								obs["user"] = map[string]string{"hp": "hp"}[r.UpLast.Header.Get("X-Forwarded-User")]
 							}
